@@ -445,10 +445,9 @@ theorem set_set_get (fs : Fs) (p : CPath) (e1 e2 : Entry) (hp : p ≠ []) (q : C
 /-- with no injected fault the data transfer of File::copy into a freshly created file succeeds -/
 theorem sendfile_complete (fs0 : Fs) (fd dest : Fd) (P : CPath) (d : Bytes)
     (hfd1 : fd.pos = 0) (hfd2 : fd.acc = .rdonly) (hfd3 : fd.isDir = false)
-    (hget : fs0.get fd.path = some (.file d)) (hP : P ≠ []) (hPnone : fs0.get P = none)
+    (hget : fs0.get fd.path = some (.file d)) (hP : P ≠ []) (hne : fd.path ≠ P)
     (hd1 : dest.acc = .wronly) (hd2 : dest.isDir = false) (_hd3 : dest.path = P) :
     (sysSendfile (fs0.set P (.file [])) dest fd d.length).2.2.2 = .ok d.length := by
-  have hne : fd.path ≠ P := by intro h; rw [h, hPnone] at hget; simp at hget
   have hdata : fileData (fs0.set P (.file [])) fd.path = d := by
     simp [fileData, get_set fs0 P fd.path _ hP, hne, hget]
   unfold sysSendfile sysWrite
@@ -574,7 +573,7 @@ theorem fileCopy_failed_noNew (fs : Fs) (src dst : Bytes) (fie : Bool) (fault : 
                   subst hf
                   simp only [copyCount, copySent, hsize]
                   rw [sendfile_complete fs0 fd dest (pa ++ [n]) d hpos hacc hdir' hget
-                    (append_singleton_ne_nil pa n) hPnone hd1 hd2 hpath]
+                    (append_singleton_ne_nil pa n) (by intro hh; rw [hh, hPnone] at hget; simp at hget) hd1 hd2 hpath]
                 have hnof : resolve fs0 dst false = .missing pa n := by
                   cases fie with
                   | true => simpa using hres
@@ -651,5 +650,199 @@ theorem fileOpen_failed_noNew (fs : Fs) (path : Bytes) (flags : Nat)
           have : ¬ (((fileData fs1 fd.path).length : Int) < 0) := by omega
           simp [this] at h
         · rw [if_neg ha] at h; simp at h
+
+
+/-! ### failed operations leave the tree unchanged (no injected I/O fault) -/
+
+theorem fileOpen_failed_same (fs : Fs) (path : Bytes) (flags : Nat) (h : (fileOpen fs path flags).2 = none) :
+    (fileOpen fs path flags).1 = fs := by
+  unfold fileOpen at h ⊢
+  cases ho : sysOpen fs path (openFlags flags) with
+  | mk fs1 r =>
+    cases r with
+    | error e => exact sysOpen_error fs fs1 path _ e ho
+    | ok fd =>
+      rw [ho] at h
+      simp only at h ⊢
+      by_cases hd : fd.isDir = true
+      · rw [if_pos hd]; exact sysOpen_dir_unchanged fs fs1 path _ fd ho hd
+      · rw [if_neg hd] at h ⊢
+        by_cases ha : hasFlag flags appendFlag = true
+        · rw [if_pos ha] at h
+          exfalso
+          unfold sysLseek at h
+          simp only [Int.add_zero] at h
+          have : ¬ (((fileData fs1 fd.path).length : Int) < 0) := by omega
+          simp [this] at h
+        · rw [if_neg ha] at h; simp at h
+
+theorem created_then_unlinked_get (fs : Fs) (path : Bytes) (parent : CPath) (name : Name) (d : Bytes)
+    (hr : resolve fs path false = .missing parent name) :
+    ∀ q, (sysUnlink (fs.set (parent ++ [name]) (.file d)) path).1.get q = fs.get q := by
+  have hnone : fs.get (parent ++ [name]) = none := by
+    unfold resolve at hr
+    by_cases hne : path = []
+    · simp [hne] at hr
+    · rw [if_neg hne] at hr; exact walk_missing_get fs _ _ _ _ _ _ hr
+  unfold resolve at hr
+  by_cases hne : path = []
+  · simp [hne] at hr
+  · rw [if_neg hne] at hr
+    have hw := walk_after_create fs (.file d) (by intro t; simp) _ _ _ false false _ _ (Or.inl rfl) hr
+    unfold sysUnlink resolve
+    rw [if_neg hne, hw]
+    simp only
+    intro q
+    rw [get_del _ _ _ (append_singleton_ne_nil parent name)]
+    by_cases hqp : q = parent ++ [name]
+    · rw [if_pos hqp, hqp, hnone]
+    · rw [if_neg hqp, get_set fs _ _ _ (append_singleton_ne_nil parent name), if_neg hqp]
+
+/-- a File::rename that reports failure leaves every entry as it was -/
+theorem fileRename_failed_same (fs : Fs) (frm to : Bytes) (fie : Bool)
+    (h : (fileRename fs frm to fie).2 = false) : ∀ q, (fileRename fs frm to fie).1.get q = fs.get q := by
+  unfold fileRename at h ⊢
+  cases fie with
+  | false =>
+    simp only [Bool.false_eq_true, if_false] at h ⊢
+    cases hr : sysRename fs frm to with
+    | mk fs1 r =>
+      rw [hr] at h
+      cases r with
+      | ok _ => simp [isOk] at h
+      | error e => simp only; rw [sysRename_error fs fs1 frm to e hr]; intro q; rfl
+  | true =>
+    simp only [if_true] at h ⊢
+    by_cases hs : isOk (sysStat fs frm false) = false
+    · rw [if_pos hs]; intro q; rfl
+    · rw [if_neg hs] at h ⊢
+      cases ho : sysOpen fs to { acc := .rdonly, creat := true, excl := true } with
+      | mk fs1 r =>
+        cases r with
+        | error e => simp only; rw [sysOpen_error fs fs1 to _ e ho]; intro q; rfl
+        | ok fd =>
+          simp only
+          have ho' := ho
+          unfold sysOpen at ho
+          simp only [and_self, if_true] at ho
+          cases hres : resolve fs to false with
+          | found p e0 => simp [hres] at ho
+          | err e0 => simp [hres] at ho
+          | missing pa n =>
+            simp only [hres, Prod.mk.injEq] at ho
+            obtain ⟨hfs1, _⟩ := ho
+            subst hfs1
+            cases hrn : sysRename (fs.set (pa ++ [n]) (.file [])) frm to with
+            | mk fs2 r2 =>
+              cases r2 with
+              | ok _ => rw [ho'] at h; simp only [hrn] at h; simp at h
+              | error e =>
+                simp only
+                rw [sysRename_error _ fs2 frm to e hrn]
+                exact created_then_unlinked_get fs to pa n [] hres
+
+theorem sysOpen_wr_existing (fs0 fs1 : Fs) (dst : Bytes) (fie : Bool) (dest : Fd)
+    (h : sysOpen fs0 dst { acc := .wronly, creat := true, excl := fie, trunc := true } = (fs1, .ok dest))
+    (hex : fs0.get dest.path ≠ none) : ∃ d0, resolve fs0 dst true = .found dest.path (.file d0) := by
+  unfold sysOpen at h
+  cases fie with
+  | true =>
+    simp only [and_self, if_true] at h
+    cases hr : resolve fs0 dst false with
+    | found p e0 => simp [hr] at h
+    | err e0 => simp [hr] at h
+    | missing pa n =>
+      simp only [hr, Prod.mk.injEq, Except.ok.injEq] at h
+      exfalso; apply hex; rw [← h.2]
+      unfold resolve at hr
+      by_cases hne : dst = []
+      · simp [hne] at hr
+      · rw [if_neg hne] at hr; exact walk_missing_get fs0 _ _ _ _ _ _ hr
+  | false =>
+    simp only [Bool.false_eq_true, and_false, if_false] at h
+    cases hr : resolve fs0 dst true with
+    | found p e0 =>
+      cases e0 with
+      | dir => simp [hr] at h
+      | link t => simp [hr] at h
+      | file d => simp [hr] at h; rw [← h.2]; exact ⟨d, rfl⟩
+    | err e0 => simp [hr] at h
+    | missing pa n =>
+      simp [hr] at h
+      exfalso; apply hex; rw [← h.2]
+      unfold resolve at hr
+      by_cases hne : dst = []
+      · simp [hne] at hr
+      · rw [if_neg hne] at hr; exact walk_missing_get fs0 _ _ _ _ _ _ hr
+
+/-- without an injected transfer fault the data phase of File::copy succeeds (source ≠ destination) -/
+theorem copyData_none_succeeds (fs0 : Fs) (fd dest : Fd) (dst : Bytes) (P : CPath) (d : Bytes)
+    (hfd1 : fd.pos = 0) (hfd2 : fd.acc = .rdonly) (hfd3 : fd.isDir = false)
+    (hget : fs0.get fd.path = some (.file d)) (hP : P ≠ []) (hne : fd.path ≠ P)
+    (hd1 : dest.acc = .wronly) (hd2 : dest.isDir = false) (hd3 : dest.path = P) :
+    (copyData (fs0.set P (.file [])) dest fd d.length dst .none).2.1 = true := by
+  have hc := sendfile_complete fs0 fd dest P d hfd1 hfd2 hfd3 hget hP hne hd1 hd2 hd3
+  unfold copyData
+  simp only
+  split
+  · rename_i hcnd
+    exfalso
+    apply hcnd
+    show copySent .none (sysSendfile (fs0.set P (.file [])) dest fd d.length).2.2.2 = some d.length
+    rw [hc]; rfl
+  · rfl
+
+/-- a File::copy that reports failure — no injected fault — leaves every entry as it was -/
+theorem fileCopy_failed_same (fs : Fs) (src dst : Bytes) (fie : Bool)
+    (h : (fileCopy fs src dst fie .none).2.1 = false) : (fileCopy fs src dst fie .none).1 = fs := by
+  unfold fileCopy at h ⊢
+  cases ho : sysOpen fs src { acc := .rdonly } with
+  | mk fs0 r =>
+    cases r with
+    | error e => exact sysOpen_error fs fs0 src _ e ho
+    | ok fd =>
+      obtain ⟨hfs0, hpos, hacc, hfile⟩ := sysOpen_rdonly fs fs0 src fd ho
+      subst hfs0
+      rw [ho] at h
+      simp only at h ⊢
+      by_cases hdir : fd.isDir = true
+      · rw [if_pos hdir]
+      · rw [if_neg hdir] at h ⊢
+        by_cases hsame : sameFile fs0 fd dst = true
+        · rw [if_pos hsame]
+        rw [if_neg hsame] at h ⊢
+        have hdir' : fd.isDir = false := by simpa using hdir
+        obtain ⟨d, hget, hpne⟩ := hfile hdir'
+        cases ho2 : sysOpen fs0 dst { acc := .wronly, creat := true, excl := fie, trunc := true } with
+        | mk fs1 r2 =>
+          cases r2 with
+          | error e => exact sysOpen_error fs0 fs1 dst _ e ho2
+          | ok dest =>
+            rw [ho2] at h
+            simp only at h
+            exfalso
+            have hsize : (fileData fs0 fd.path).length = d.length := by rw [fileData_of_get fs0 _ d hget]
+            rw [hsize] at h
+            obtain ⟨hd1, hd2, hd3, hcase⟩ := sysOpen_wr fs0 fs1 dst fie dest ho2
+            rcases hcase with ⟨hg, hp, hfs1⟩ | ⟨pa, n, hpath, hfs1, hres⟩
+            · subst hfs1
+              obtain ⟨d0, hrd⟩ := sysOpen_wr_existing fs0 _ dst fie dest ho2 hg
+              have hne : fd.path ≠ dest.path := by
+                intro heq
+                apply hsame
+                unfold sameFile
+                rw [hrd]; simp [heq]
+              rw [copyData_none_succeeds fs0 fd dest dst dest.path d hpos hacc hdir' hget hp hne hd1 hd2 rfl] at h
+              simp at h
+            · subst hfs1
+              have hPnone : fs0.get (pa ++ [n]) = none := by
+                unfold resolve at hres
+                by_cases hne : dst = []
+                · simp [hne] at hres
+                · rw [if_neg hne] at hres; exact walk_missing_get fs0 _ _ _ _ _ _ hres
+              have hne : fd.path ≠ pa ++ [n] := by intro hh; rw [hh, hPnone] at hget; simp at hget
+              rw [copyData_none_succeeds fs0 fd dest dst (pa ++ [n]) d hpos hacc hdir' hget
+                (append_singleton_ne_nil pa n) hne hd1 hd2 hpath] at h
+              simp at h
 
 end Nstd.Path
